@@ -16,7 +16,7 @@ def translate(mesh : Mesh, tr : Vec) -> Mesh:
         Mesh: the translated mesh
     """
     for i in mesh.id_vertices:
-        mesh.vertices[i] += tr
+        mesh.vertices[i] = mesh.vertices[i] + tr # a new vector: the stored array may be shared (other mesh, the caller's vector, tr itself)
     return mesh
 
 def rotate(mesh : Mesh, rot : Rotation, orig : Vec = None) -> Mesh:
@@ -147,5 +147,7 @@ def flatten(mesh : Mesh, dim : int = None) -> Mesh:
             variances.append(np.var([p[i] for p in mesh.vertices]))
         dim = np.argmin(variances)
     for i in mesh.id_vertices:
-        mesh.vertices[i][dim] = 0.
+        p = Vec(np.array(mesh.vertices[i], dtype=float)) # a new vector: the stored array may be shared
+        p[dim] = 0.
+        mesh.vertices[i] = p
     return mesh
